@@ -1,5 +1,12 @@
 use core::task::Waker;
 
+#[cfg(feature = "fc-verif")]
+impl<const N: usize> crate::utils::verif::Snapshot for ReadinessArray<N> {
+    fn snapshot(&self) -> (std::vec::Vec<bool>, usize, bool) {
+        (self.readiness_list.to_vec(), self.count, self.parent_waker.is_some())
+    }
+}
+
 /// Tracks which wakers are "ready" and should be polled.
 #[derive(Debug)]
 pub(crate) struct ReadinessArray<const N: usize> {
